@@ -130,7 +130,7 @@ pub fn repo_seed_files() -> Vec<std::path::PathBuf> {
     }
     let mut out = Vec::new();
     for sub in ["examples", "tests", "benchmarks", "stdlib", "workspaces"] {
-        walk(&std::path::Path::new(crate::REPO_ROOT).join(sub), &mut out);
+        walk(&crate::repo_root().join(sub), &mut out);
     }
     out
 }
